@@ -224,7 +224,9 @@ def machine_check(case):
             flags.add("remove")
             continue
         if kind == "read":
-            ts = sorted({min(max(maxt + d, 0), case["max_time"]) for d in op[2]}) if op[3] else [min(max(maxt + d, 0), case["max_time"]) for d in op[2]]
+            ts = [min(max(maxt + d, 0), case["max_time"]) for d in op[2]]
+            if op[3]:
+                ts = list(dict.fromkeys(ts))  # distinct times in the order drawn (ascending, descending or mixed)
             vals = _call(f.get_fundamental_prices, market_id=i, times=ts) if op[3] else [_call(f.get_fundamental_price, market_id=i, time=t) for t in ts]
             maxt = max(maxt, max(ts))
             if maxt >= 100:
